@@ -38,6 +38,23 @@ theorem mul_exact (a b : Int) (h : InRange (a * b)) : mul a b = a * b := wrap_of
 theorem tdiv_nonneg_eq (a b : Int) (ha : 0 ≤ a) : Int.tdiv a b = a / b :=
   Int.tdiv_eq_ediv_of_nonneg ha
 
+/-! Additions used by the generated files (`harness/facts`, tie T1). -/
+
+/-- the value in `[-2^(bits-1), 2^(bits-1))` congruent to `x` mod `2^bits` (`int8/16/32`) -/
+def wrapN (bits : Nat) (x : Int) : Int :=
+  (x + (2 ^ (bits - 1) : Int)) % (2 ^ bits : Int) - (2 ^ (bits - 1) : Int)
+
+/-- two's-complement bit pattern of an `int64` as a natural number `< 2^64` -/
+def toBits (x : Int) : Nat := (x % 18446744073709551616).toNat
+def and (a b : Int) : Int := wrap (Int.ofNat (toBits a &&& toBits b))
+def or (a b : Int) : Int := wrap (Int.ofNat (toBits a ||| toBits b))
+def xor (a b : Int) : Int := wrap (Int.ofNat (toBits a ^^^ toBits b))
+/-- Go `^x` on a signed integer -/
+def not (a : Int) : Int := -a - 1
+
+theorem wrapN_64 (x : Int) : wrapN 64 x = wrap x := by
+  unfold wrapN wrap; rfl
+
 end KV.I64
 
 namespace KV.U64
@@ -49,4 +66,41 @@ def mul (a b : Nat) : Nat := (a * b) % modulus
 theorem add_exact (a b : Nat) (h : a + b < modulus) : add a b = a + b := Nat.mod_eq_of_lt h
 theorem sub_exact (a b : Nat) (h : b ≤ a) (ha : a < modulus) : sub a b = a - b := by
   unfold sub wrap modulus at *; omega
+
+/-! Additions used by the generated files (`harness/facts`, tie T1). Division by zero is a
+run-time panic in Go; here it follows Lean (`x / 0 = 0`, `x % 0 = x`) — theorems that need it
+state `b ≠ 0`. -/
+def maxU64 : Nat := 18446744073709551615
+def div (a b : Nat) : Nat := a / b
+def mod (a b : Nat) : Nat := a % b
+def shl (a k : Nat) : Nat := (a * 2 ^ k) % modulus
+def shr (a k : Nat) : Nat := a / 2 ^ k
+def and (a b : Nat) : Nat := a &&& b
+def or (a b : Nat) : Nat := a ||| b
+def xor (a b : Nat) : Nat := a ^^^ b
+/-- Go `^x` on a `uint64` -/
+def not (a : Nat) : Nat := maxU64 - a % modulus
+/-- the value in `[0, 2^bits)` congruent to `x` mod `2^bits` (`uint8/16/32`, conversions) -/
+def wrapN (bits : Nat) (x : Int) : Nat := (x % (2 ^ bits : Int)).toNat
+
+theorem mul_exact (a b : Nat) (h : a * b < modulus) : mul a b = a * b := Nat.mod_eq_of_lt h
+theorem div_eq (a b : Nat) : div a b = a / b := rfl
+theorem wrap_ofNat (a : Nat) (h : a < modulus) : wrap (Int.ofNat a) = a := by
+  unfold wrap modulus at *
+  have e : Int.ofNat a = (a : Int) := rfl
+  rw [e]; omega
 end KV.U64
+
+/-! `math/bits` primitives -/
+namespace KV.Bits
+/-- `bits.Len(x)`: minimum number of bits to represent `x`; `0` for `x = 0` (result is a Go `int`) -/
+def len (x : Nat) : Int := if x = 0 then 0 else Int.ofNat (Nat.log2 x + 1)
+end KV.Bits
+
+/-! `math/big` primitives on exact integers -/
+namespace KV.Big
+/-- `x.Cmp(y)`: -1, 0, +1 (a Go `int`) -/
+def cmp (a b : Int) : Int := if a < b then -1 else if a = b then 0 else 1
+/-- `x.Sign()` -/
+def sign (a : Int) : Int := cmp a 0
+end KV.Big
